@@ -316,6 +316,11 @@ impl Watchdog {
         }));
         let beats = Arc::new(AtomicU64::new(0));
         let st = state.clone();
+        if cfg!(miri) {
+            // Miri insists on all threads being joined at exit and runs on virtual time: hangs
+            // are left to the driver's wall-clock watchdog there
+            return Watchdog { state, beats };
+        }
         std::thread::Builder::new()
             .name("verif-watchdog".into())
             .spawn(move || loop {
